@@ -351,8 +351,8 @@ def _mutants(ctx, G, ast, rng, names_set):
     if items:
         victim = rng.choice(items)
         bogus = rng.choice(["FOO", "SVIDX", "svid", "Mdln", "L2", "LL", "DATA", "XYZZY", "A", "U4", "ITEM1"] + _MODULE_NAMES)
-        if bogus in names_set or bogus.upper() in names_set:
-            return
+        if bogus in names_set or (bogus == bogus.lower() and bogus.upper() in names_set):
+            return      # (the all-lower-case spelling of an item name is the name of its module in the package and is read as the item)
         marker = "\x00"
         done = [False]
 
